@@ -210,6 +210,114 @@ pub fn run_complete(s: &mut Src, ctx: &mut Ctx) -> Verdict {
     judge(&kb, &st, &goal, &cfg, ctx)
 }
 
+// ------------------------------------------------------------------ part `ladder`
+
+const LEVELS: [&str; 4] = ["bronze", "silver", "gold", "platinum"];
+
+/// Part `ladder`: derivations that climb. Every rule on the derivation has ONE derived premise (plus base premises that
+/// hold), so the derivation is a single path and nothing on it can be in another premise's way; but a step may test a
+/// field and assign the NEXT value to that same field (`G.d0 == "silver"` => `G.d0 = "gold"`), so one field is the
+/// subject of several different sub-goals, one below the other. The path has as many rules as its height; rules whose
+/// base premise is false (they can never fire) are strewn in as distractors, some of them assigning other values to
+/// the same fields. Demand (the completeness clause as stated): depth-first, height <= max_depth => provable, and the
+/// goal holds in the facts handed back.
+pub fn run_ladder(s: &mut Src, ctx: &mut Ctx) -> Verdict {
+    let k = 1 + s.below(5); // rules on the path
+    let mut kb = Kb { rules: vec![], str_kind: [true; ND], monotone: false, str_style: 0 };
+    let mut st = Store::default();
+    st.top.insert("B.f0".to_string(), V::Bool(true));
+    st.top.insert("B.f1".to_string(), V::Bool(false));
+    st.top.insert("B.n0".to_string(), V::Int(3));
+    let lv = |l: usize| V::Str(LEVELS[l].to_string());
+    let truth = |s: &mut Src| -> Cond {
+        match s.below(3) {
+            0 => atom_of("B.f0", Op::Eq, V::Bool(true)),
+            1 => atom_of("B.n0", Op::Ge, V::Int(s.range(0, 3))),
+            _ => atom_of("B.f1", Op::Eq, V::Bool(false)),
+        }
+    };
+    // the path: (field, level) reached after each rule
+    let mut field = 0usize;
+    let mut level = 0usize;
+    let mut next_field = 1usize;
+    let mut climbs = 0;
+    let mut order: Vec<BRule> = Vec::new();
+    order.push(BRule { name: "p0".into(), salience: 0, cond: truth(s), heads: vec![(dname(field), lv(level))], fails_at: None, disabled: false });
+    for i in 1..k {
+        let premise = atom_of(&dname(field), Op::Eq, lv(level));
+        let climb = level + 1 < LEVELS.len() && (next_field >= ND || s.chance(2, 3));
+        if climb {
+            level += 1;
+            climbs += 1;
+        } else {
+            field = next_field;
+            next_field += 1;
+            level = s.below(2);
+        }
+        let cond = if s.chance(1, 3) {
+            let t = truth(s);
+            if s.bool() {
+                Cond::And(Box::new(premise), Box::new(t))
+            } else {
+                Cond::And(Box::new(t), Box::new(premise))
+            }
+        } else {
+            premise
+        };
+        order.push(BRule { name: format!("p{}", i), salience: [0, 0, 5, 10][s.below(4)], cond, heads: vec![(dname(field), lv(level))], fails_at: None, disabled: false });
+    }
+    let goal = GoalQ { atom: Atom { lhs: Lhs::Field(dname(field)), op: Op::Eq, rhs: Term::Lit(lv(level)), tight: false } };
+    // distractors that can never fire
+    let nd = s.below(4);
+    for j in 0..nd {
+        let f = s.below(next_field.min(ND));
+        let dead = atom_of("B.f1", Op::Eq, V::Bool(true));
+        let cond = if s.bool() { dead } else { Cond::And(Box::new(atom_of(&dname(s.below(ND)), Op::Eq, lv(s.below(4)))), Box::new(dead)) };
+        order.push(BRule { name: format!("x{}", j), salience: [0, 5, 20][s.below(3)], cond, heads: vec![(dname(f), lv(s.below(4)))], fails_at: None, disabled: false });
+    }
+    // the order in which the rules were added carries no meaning: rotate
+    let rot = s.below(order.len());
+    order.rotate_left(rot);
+    kb.rules = order;
+    let max_depth = s.below(8);
+    let cfg = Cfg { strat: Strat::Dfs, max_depth, max_solutions: if s.chance(1, 3) { 3 } else { 1 }, memo: s.bool() };
+    if probe_only() {
+        return Verdict::Pass;
+    }
+    ctx.describe(|| format!("ladder of {} rules ({} of them raise the field they test)\n{}", k, climbs, describe(&kb, &st, &goal, &cfg)));
+    let out = match run_query(&kb, &st, &goal, &cfg) {
+        Ok(o) => o,
+        Err(e) => {
+            let l = if e.starts_with("panic") { "engine-panic" } else { "engine-error" };
+            ctx.label(l);
+            return Verdict::Discard(l);
+        }
+    };
+    if out.provable && eval_atom(&goal.atom, &out.after) != T3::True {
+        return Verdict::fail("provable-but-goal-false-in-returned-facts:ladder", format!("query `{}` reported provable but the goal is not true in the facts handed back", goal.text()));
+    }
+    if k <= max_depth && !out.provable {
+        return Verdict::fail(
+            "bounded-completeness:ladder",
+            format!("query `{}`: the goal has a derivation of height {} <= max_depth {} (a single path of rules p0..p{}, each with one derived premise) but is reported not provable", goal.text(), k, max_depth, k - 1),
+        );
+    }
+    if k <= max_depth {
+        ctx.label("height<=max_depth");
+        if climbs > 0 {
+            ctx.label("path-raises-a-field-it-tests");
+            ctx.nontrivial(hash_case(&kb, &st, &format!("{}{:?}", goal.text(), cfg)));
+        }
+    } else {
+        ctx.label("height>max_depth(nothing demanded)");
+    }
+    Verdict::Pass
+}
+
+fn atom_of(path: &str, op: Op, v: V) -> Cond {
+    Cond::Atom(Atom { lhs: Lhs::Field(path.to_string()), op, rhs: Term::Lit(v), tight: false })
+}
+
 pub fn property() -> Property {
     Property {
         id: "C09",
@@ -218,6 +326,7 @@ pub fn property() -> Property {
         assumptions: vec!["REF (typed.rs) judges the goal comparison; numeric equality goals are not generated (the goal parser reads numbers as floats; REF calls int-vs-float equality undefined)".into()],
         parts: vec![
             Part { name: "sound", run, quick: Budget::Random { cases: 400_000, bytes: 300 }, thorough: Budget::Random { cases: 10_000_000, bytes: 300 }, min_nontrivial_pct: 30 },
+            Part { name: "ladder", run: run_ladder, quick: Budget::Random { cases: 200_000, bytes: 200 }, thorough: Budget::Random { cases: 3_000_000, bytes: 200 }, min_nontrivial_pct: 10 },
             Part { name: "complete", run: run_complete, quick: Budget::Random { cases: 400_000, bytes: 300 }, thorough: Budget::Random { cases: 10_000_000, bytes: 300 }, min_nontrivial_pct: 5 },
         ],
         watchdog: true,
